@@ -1149,6 +1149,12 @@ func parseBMPMessage(data []byte, optionsFunc func(BMPPeerHeader) []*bgp.Marshal
 	if err != nil {
 		return nil, err
 	}
+	// The declared length must cover the common header and must not exceed
+	// the bytes the caller passed: slicing up to it would otherwise reach
+	// into the spare capacity of the caller's buffer.
+	if msg.Header.Length < BMP_HEADER_SIZE || uint64(msg.Header.Length) > uint64(len(data)) {
+		return nil, fmt.Errorf("invalid BMP message length %d: %d bytes available", msg.Header.Length, len(data))
+	}
 	data = data[BMP_HEADER_SIZE:msg.Header.Length]
 
 	switch msg.Header.Type {
